@@ -104,6 +104,19 @@ def step (s : St) (line : String) : St × String :=
     match parseNatList ids with
     | some ids => (put s r (.seg (fromSlice ids)), showSeg (fromSlice ids))
     | none => (s, bad)
+  | ["enc", ids] =>
+    match parseNatList ids with
+    | some ids =>
+      let showEnc (tag : String) (a : List Nat) : String :=
+        match Enc.ofList a with
+        | .u16 b o => s!"{tag} U16 {b} {showNatList o}"
+        | .u32 b o => s!"{tag} U32 {b} {showNatList o}"
+        | .u64 v => s!"{tag} U64 {showNatList v}"
+      match fromSlice ids with
+      | .sorted a => (s, showEnc "S" a)
+      | .array a => (s, showEnc "A" a)
+      | _ => (s, "other")
+    | none => (s, bad)
   | ["sraw", r, d] =>
     match parseSeg d with
     | some x => (put s r (.seg x), showSeg x)
